@@ -19,9 +19,7 @@ import sys
 
 GROUPS = {
     # group: (file, [qualified names]); a name `A.b` = method b of class A, `f.g` = inner function g of f, `@X` = module-level assignment X
-    "Parser": ("_parser.py", ["_span_to_tok", "_span_to_str_or_int",
-                              "_postfix_from_infix", "_maybe_multiaxis", "expression_from_string",
-                              "DLTypeDimensionExpression.from_multiaxis_literal", "@_VALID_IDENTIFIER_RX"]),
+    "Parser": ("_parser.py", ["_span_to_tok", "_span_to_str_or_int", "DLTypeDimensionExpression.from_multiaxis_literal", "@_VALID_IDENTIFIER_RX"]),
     "Shape": ("_tensor_type_base.py", ["TensorTypeBase.__class_getitem__"]),
     "Expand": ("_dltype_context.py", ["_ConcreteType.tensor_arg_name", "DLTypeContext.__init__"]),
     "Hints": ("_core.py", ["DLTypeAnnotation.from_hint", "_resolve_types", "_resolve_value", "_maybe_get_type_hints", "_maybe_get_signature"]),
